@@ -306,6 +306,57 @@ def c03_glyphcache(run, fx):
             run.fail(rule, "glyphcache:get-ignores-key", "GlyphCache::get does not compare its key argument with the stored key", "%s:%s" % (g.file, g.line))
 
 
+    # `ch` is an argument of get and put but is not stored with the entry: the cache is sound only because both sides are pinned to one
+    # and the same character - get answers, and put stores, only under `ch == DOTTED_CIRCLE`
+    p_ = fx.body("font::GlyphCache::put")
+    if g is None or p_ is None:
+        return run.anchor_missing(rule, "GlyphCache::get / GlyphCache::put")
+    import guards
+
+    def pinned(body, blocks):
+        """constants c such that every block of `blocks` is dominated by the true side of `<param ch> == c`"""
+        pv = sym.Prov(body)
+        out = None
+        for blk in blocks:
+            ks = set()
+            for tb, fb, op, x, y, sw in guards.branch_conditions(body, pv):
+                for blk2, o in ((tb, op), (fb, guards.CMP_NEG.get(op))):
+                    if blk2 is None or o != "Eq" or not body.dominates(blk2, blk):
+                        continue
+                    xs, ys = sym.strip(x), sym.strip(y)
+                    for a, c in ((xs, ys), (ys, xs)):
+                        if a[0] == "arg" and a[2] == "ch" and c[0] in ("c", "uneval"):
+                            ks.add(str(c[1]) if c[0] == "uneval" else repr(c[1:]))
+            out = ks if out is None else (out & ks)
+        return out or set()
+
+    def stored_fields(body):
+        """does the stored tuple include the parameter ch?"""
+        pv = sym.Prov(body)
+        for bi in range(len(body.blocks)):
+            for st in body.stmts(bi):
+                if st["k"] == "assign" and st["p"]["l"] == 1 and st["p"]["p"] and st["p"]["p"][0] == "*":
+                    if any(x[0] == "arg" and x[2] == "ch" for x in sym.walk(pv.rvalue(st["rv"]))):
+                        return True
+        return False
+    store_blocks = [bi for bi in range(len(p_.blocks)) if p_.reachable(bi) and any(
+        st["k"] == "assign" and st["p"]["l"] == 1 and st["p"]["p"] and st["p"]["p"][0] == "*" for st in p_.stmts(bi))]
+    hit_blocks = [bi for bi in range(len(g.blocks)) if g.reachable(bi) and any(
+        st["k"] == "assign" and st["p"]["l"] == 0 and not st["p"]["p"] and st["rv"]["k"] == "agg" and st["rv"].get("vname") == "Some" for st in g.stmts(bi))]
+    if not store_blocks or not hit_blocks:
+        return run.anchor_missing(rule, "store in GlyphCache::put / Some(..) result in GlyphCache::get")
+    if stored_fields(p_):
+        run.ok(rule, "GlyphCache stores the character with the entry")
+    else:
+        kp, kg = pinned(p_, store_blocks), pinned(g, hit_blocks)
+        if kp and kg and kp & kg:
+            run.ok(rule, "GlyphCache::get and GlyphCache::put are both restricted to ch == %s, which is not part of the stored key" % sorted(kp & kg)[0][:40])
+        else:
+            side = "put stores" if not kp else ("get answers" if not kg else "get and put are pinned to different characters:")
+            run.fail(rule, "glyphcache:ch", "the character is not part of the stored GlyphCache key and %s for any character: a lookup of one character can be "
+                     "answered with the glyph cached for another" % side, "%s:%s" % ((p_ if not kp else g).file, (p_ if not kp else g).line))
+
+
 def c03_lazy(run, fx, floors):
     rule = "C03-a/L"
     run.rule(rule, "LazyLoad::get_or_load assigns the slot only in a block dominated by the success of the loader; every Font field read on the way to "
@@ -477,7 +528,7 @@ def c03_c(run, fx):
         run.anchor_missing(rule, "statics table")
 
 
-def c03_rebase(run, fx):
+def c03_rebase(run, fx, floors=True):
     rule = "C03-a/B"
     run.rule(rule, "no ReadScope is re-based: ReadScope::new is never applied to (a sub-slice of) another scope's data(), neither directly nor as "
                    "the function handed to Option::map / and_then. Sub-scopes come from offset / offset_length, which keep the base that the "
@@ -505,6 +556,42 @@ def c03_rebase(run, fx):
                 run.fail(rule, "rebase:%s" % b.root, "%s builds a ReadScope from another scope's data(): the new scope's base is 0, so caches keyed by the "
                          "scope base confuse this sub-table with others (results depend on which was read first)" % b.path, b.loc(t))
     run.ok(rule, "%d ReadScope constructions examined" % n)
+    # the sub-scope constructors themselves: a window that starts `off` bytes into self.data has base self.base + off
+    lits = 0
+    for b in fx.bodies:
+        if b.exp or not b.root.startswith("binary::read::ReadScope"):
+            continue
+        prov = sym.Prov(b)
+        for bi in range(len(b.blocks)):
+            if not b.reachable(bi):
+                continue
+            for st in b.stmts(bi):
+                rv = st.get("rv") or {}
+                if not (st.get("k") == "assign" and rv.get("k") == "agg" and (rv.get("adt") or "").endswith("read::ReadScope")):
+                    continue
+                f = dict(zip(rv["fnames"], rv["fields"]))
+                if "base" not in f or "data" not in f:
+                    continue
+                data, base = prov.op(f["data"]), sym.strip(prov.op(f["base"]))
+                starts = []
+                for x in sym.walk(data):
+                    if x[0] == "agg" and str(x[1]).endswith(("ops::RangeFrom", "ops::Range")) and x[3]:
+                        starts.append(sym.strip(x[3][0]))
+                from_self = any(y[0] == "field" and y[2] == "data" and any(z[0] == "arg" and z[2] == "self" for z in sym.walk(y)) for y in sym.walk(data))
+                moving = [x for x in starts if not (x[0] == "c" and x[1] == 0)]
+                if not from_self or not moving:
+                    continue
+                lits += 1
+                off = sym.norm(moving[0])
+                ok = base[0] == "bin" and base[1] in ("Add", "AddWithOverflow") and any(
+                    sym.norm(sym.strip(base[i])) == off and any(z[0] == "field" and z[2] == "base" for z in sym.walk(base[5 - i])) for i in (2, 3))
+                if ok:
+                    run.ok(rule, "%s: base = self.base + offset" % b.path)
+                else:
+                    run.fail(rule, "base:%s" % b.root, "%s returns a window that starts %s bytes into the data but carries the base %s: distinct windows share one "
+                             "cache identity (ReadCache, cache_key), so what a read returns depends on what was read before" % (b.path, sym.show(moving[0])[:30], sym.show(base)[:40]), b.loc(st))
+    if floors and lits < 2:
+        run.anchor_missing(rule, "ReadScope::offset and ReadScope::offset_length literals (found %d)" % lits)
 
 
 def check(run, fx, tier, floors=True):
@@ -515,7 +602,7 @@ def check(run, fx, tier, floors=True):
     c03_lazy(run, fx, floors)
     c03_b(run, fx, floors)
     c03_c(run, fx)
-    c03_rebase(run, fx)
+    c03_rebase(run, fx, floors)
     if floors or fx.body("layout::new_layout_cache") is not None:
         # the lookup caches are index memos: the remembered index must be the position of the list it stands for
         import rules_C02
